@@ -209,7 +209,32 @@ COMMON_UBX = [
 ]
 
 
+def ubx_ref(rng):
+    """
+    Frames whose payload NAMES another message (ACK-ACK / ACK-NAK clsID+msgID, CFG-MSG
+    msgClass+msgID): the reference is drawn from every class byte of the catalogue (and a few
+    unknown ones) x known and unknown ids - str() resolves these references to names.
+    """
+    cat = catalogue()
+    classes = sorted({e["cls"] for e in cat}) + [0x00, 0x77, 0xFF, 0xF0, 0xF1, 0xF5]
+    rcls = rng.choice(classes)
+    ids = [e["mid"] for e in cat if e["cls"] == rcls]
+    rid = rng.choice(ids) if ids and rng.random() < 0.5 else rng.randrange(256)
+    kind = rng.randrange(5)
+    if kind == 0:
+        return wire.ubx_frame(0x05, 0x01, bytes((rcls, rid))), f"ACK-ACK ref {rcls:02x}{rid:02x}"
+    if kind == 1:
+        return wire.ubx_frame(0x05, 0x00, bytes((rcls, rid))), f"ACK-NAK ref {rcls:02x}{rid:02x}"
+    if kind == 2:
+        return wire.ubx_frame(0x06, 0x01, bytes((rcls, rid))), f"CFG-MSG poll ref {rcls:02x}{rid:02x}"
+    if kind == 3:
+        return wire.ubx_frame(0x06, 0x01, bytes((rcls, rid, rng.randrange(4)))), f"CFG-MSG set3 ref {rcls:02x}{rid:02x}"
+    return wire.ubx_frame(0x06, 0x01, bytes((rcls, rid)) + bytes(rng.randrange(3) for _ in range(6))), f"CFG-MSG set8 ref {rcls:02x}{rid:02x}"
+
+
 def ubx_common(rng, serial=None):
+    if rng.random() < 0.3:
+        return ubx_ref(rng)
     cls, mid, pl = rng.choice(COMMON_UBX)
     pl = bytearray(pl)
     if serial is not None and len(pl) >= 16:
